@@ -171,6 +171,13 @@ class TRTaps:
                 return r
             return method
 
+        def remember(orig):
+            def method(fw):
+                fw._vf_sel = snapshot_selection(fw)
+                return orig(fw)
+            return method
+
+        self.taps.patch(cf.TrustRegion, "set_best_index", remember)
         self.taps.patch(cf.TrustRegion, "get_trust_region_step", before_tr)
         self.taps.patch(cf.TrustRegion, "update_radius", after("update_radius"))
         self.taps.patch(cf.TrustRegion, "enhance_resolution", after("enhance_resolution"))
@@ -202,6 +209,19 @@ class TRTaps:
 
     def centre(self, fw):
         centre_clause(fw, self.out, self)
+
+
+def snapshot_selection(fw):
+    """What set_best_index is about to see: the centre it starts from and the solver's own merit values and
+    violations of the interpolation points (used only by the signature of the known finding KF-C18-1)."""
+    m, pb = fw.models, fw._pb
+    try:
+        own_m = [float(fw.merit(m.interpolation.point(i), m.fun_val[i], m.cub_val[i, :], m.ceq_val[i, :]))
+                 for i in range(m.npt)]
+        own_r = [float(pb.maxcv(m.interpolation.point(i), m.cub_val[i, :], m.ceq_val[i, :])) for i in range(m.npt)]
+    except Exception:
+        return None
+    return {"prev": int(fw._best_index), "own_merits": own_m, "own_viols": own_r}
 
 
 def centre_clause(fw, out, once=None):
@@ -244,7 +264,9 @@ def centre_clause(fw, out, once=None):
         if k != b and merits[k] - mmin <= 0.5 * tol - slack and viols[k] < viols[b] - 1e-9 * max(1.0, viols[b]):
             out.fail("C18.centre_tie", "index %d has the least merit up to rounding (%.17g, least %.17g, centre "
                      "%.17g, band %.3g) and a smaller violation than the centre %d (%.6g < %.6g)"
-                     % (k, merits[k], mmin, mb, tol, b, viols[k], viols[b]))
+                     % (k, merits[k], mmin, mb, tol, b, viols[k], viols[b]),
+                     centre=b, n=int(n), npt=int(npt),
+                     **(getattr(fw, "_vf_sel", None) or {"prev": None, "own_merits": [], "own_viols": []}))
             break
     if any(k != b and merits[k] - mmin <= 0.5 * tol - slack and viols[k] > viols[b] + 1e-9 * max(1.0, viols[b])
            for k in range(npt)):
@@ -287,6 +309,7 @@ def centre_case(spec):
         if rd["pen"] != "keep":
             fw._penalty = float(rd["pen"])
         fw._best_index = rd["best"] % npt
+        fw._vf_sel = snapshot_selection(fw)
         fw.set_best_index()
         if centre_clause(fw, out):
             ties += 1
@@ -479,4 +502,23 @@ def replay_ops(name, init, ops):
     return drv.out
 
 
-SIGNATURES = {}
+def sig_sequential_rule(spec, fail):
+    """KF-C18-1: the centre is exactly what the shipped pairwise rule of set_best_index - `m_k < m_best or
+    (m_k < m_best + tol and r_k < r_best)`, scanned in index order from the previous centre - selects from the
+    solver's own merit values.  Anything else (another tie direction, a stale centre) is not this finding."""
+    d = fail.data or {}
+    if not fail.clause.startswith("C18.centre_tie") or d.get("prev") is None or len(d["own_merits"]) != d["npt"]:
+        return False
+    M, R, n, npt = d["own_merits"], d["own_viols"], d["n"], d["npt"]
+
+    def band(mv):
+        return 10.0 * S.EPS * max(n, npt) * max(abs(mv), 1.0)
+    prev = int(d["prev"])
+    best, m_best, r_best, tol = prev, M[prev], R[prev], band(M[prev])
+    for k in range(npt):
+        if k != prev and (M[k] < m_best or (M[k] < m_best + tol and R[k] < r_best)):
+            best, m_best, r_best, tol = k, M[k], R[k], band(M[k])
+    return best == int(d["centre"])
+
+
+SIGNATURES = {"sequential_rule_from_previous_centre": sig_sequential_rule}
